@@ -56,6 +56,16 @@ var refURLAttrs = []string{"action", "cite", "data", "formaction", "href", "item
 var refRawText = []string{"script", "style", "textarea", "title", "iframe", "xmp", "noembed", "noframes", "plaintext", "noscript",
 	"svg", "math"} // svg and math: foreign content handed to its own minifier as a whole
 
+// elements whose boundary makes adjacent white space insignificant for rendering (HTML Standard, section 15 Rendering):
+// display:none, display:block / list-item / table parts in the user-agent style sheet, the line break, and option /
+// optgroup (rendered by the select widget), noscript (not rendered when scripting is enabled).
+var refSpaceInsignificant = []string{
+	"area", "base", "basefont", "datalist", "head", "link", "meta", "noembed", "noframes", "param", "rp", "script", "style", "template", "title",
+	"html", "body", "address", "blockquote", "center", "dialog", "div", "figure", "figcaption", "footer", "form", "header", "hr", "legend", "listing", "main", "p", "plaintext", "pre", "search", "xmp",
+	"article", "aside", "h1", "h2", "h3", "h4", "h5", "h6", "hgroup", "nav", "section", "dir", "dd", "dl", "dt", "menu", "ol", "ul", "li",
+	"table", "caption", "colgroup", "col", "thead", "tbody", "tfoot", "tr", "td", "th", "fieldset", "details", "summary", "optgroup", "option", "frameset", "frame", "noscript", "br",
+}
+
 func verifIn(list []string, s string) bool {
 	for _, x := range list {
 		if x == s {
@@ -83,6 +93,10 @@ func VerifHTMLTraits(n int) {
 		if tagMap[h]&rawTag != 0 {
 			vAssert(verifIn(refRawText, h.String()), "element treated as raw text is a raw-text or escapable-raw-text element")
 		}
+		if tagMap[h]&blockTag != 0 && !verifIn(refSpaceInsignificant, h.String()) {
+			// F41 (fixed): marquee is an inline-block (HTML Standard 15.5.14), white space next to it is rendered
+			vFail("element next to which white space is dropped is block-level, a table part, a line break or not rendered")
+		}
 	} else {
 		h := attrs[vChoice("i", len(attrs))]
 		t := attrMap[h]
@@ -106,6 +120,54 @@ func VerifHTMLHash(n int) {
 	h := ToHash(b)
 	if h != 0 {
 		vAssert(h.String() == string(b), "ToHash(s) = h != 0 implies text(h) = s")
+	}
+	vReach("end")
+}
+
+// replaced elements and inline-blocks: white space on both sides is rendered even when the element is empty
+var refReplaced = []string{"img", "image", "input", "embed", "keygen", "audio", "video", "canvas", "iframe", "object", "button", "select", "textarea", "meter", "progress", "marquee", "applet"}
+
+// VerifHTMLInlineSpaces: through the public minifier, for every element of the tag table that is not in the reference
+// list of elements with insignificant surrounding white space: in `<div>a <X>b</X> c</div>` both spaces survive; in
+// `<div>a <X></X> c</div>` (`a <X> c` for void elements) both survive when X is a replaced element or inline-block, and
+// at least one survives otherwise (white space collapses through an empty inline box).
+func VerifHTMLInlineSpaces(n int) {
+	var tags []Hash
+	for h := range tagMap {
+		tags = append(tags, h)
+	}
+	sort.Slice(tags, func(i, j int) bool { return tags[i] < tags[j] })
+	h := tags[vChoice("i", len(tags))]
+	name := h.String()
+	vAssume(!verifIn(refSpaceInsignificant, name) && name != "svg" && name != "math")
+	void := verifIn([]string{"img", "input", "wbr", "embed", "source", "track", "keygen", "image", "bgsound"}, name)
+	raw := tagMap[h]&rawTag != 0
+	empty := void || raw || vBool("empty")
+	attr := ""
+	if name == "audio" || name == "video" {
+		attr = " controls"
+	}
+	var in []byte
+	if void {
+		in = []byte("<div>a <" + name + attr + "> c</div>")
+	} else if empty {
+		in = []byte("<div>a <" + name + attr + "></" + name + "> c</div>")
+	} else {
+		vAssume(name != "select" && name != "a" && name != "button" && name != "nobr") // nesting rules of the tree builder, not spacing
+		in = []byte("<div>a <" + name + attr + ">b</" + name + "> c</div>")
+	}
+	w := &vWriter{}
+	err := (&Minifier{}).Minify(verifOptM(), w, &vReader{b: in}, nil)
+	vOutput("out", w.buf)
+	vAssert(err == nil, "no error")
+	out := string(w.buf)
+	before, after := rhIndex(w.buf, "a <"+name) >= 0, rhIndex(w.buf, "> c") >= 0
+	if !empty || verifIn(refReplaced, name) {
+		// F41-F43 (fixed): marquee, embed and audio lacked the objectTag trait
+		vAssert(before, "space in front of an inline / replaced element is kept: "+out)
+		vAssert(after, "space behind an inline / replaced element is kept: "+out)
+	} else {
+		vAssert(before || after, "a space survives around an empty inline element: "+out)
 	}
 	vReach("end")
 }
